@@ -257,6 +257,37 @@ def run_job(job):
     return r
 
 
+def long_decimal_strings(tier):
+    """decimal inputs with 20..800 significant digits: the exact midpoint of two adjacent doubles (a tie), the midpoint nudged up / down in a far digit,
+    and the exact expansions of the neighbours: a parser that looks at the first 19 digits only gets these one ulp wrong"""
+    from decimal import Decimal, getcontext
+    getcontext().prec = 1200
+    seeds = [1.0, 9007199254740992.0, 9007199254740994.0, 73786976294838206464.0, 1e22, 1e23, 0.1, 0.3, 123456789.0, 5e-324, 2.2250738585072014e-308,
+             1.7976931348623157e308, 4.9e-310, 1e-5, 6.02214076e23, 3.141592653589793, 8.98846567431158e307, 1e16, 2.0 ** 64, 2.0 ** 70 + 2.0 ** 18]
+    if tier != 'quick':
+        seeds += [float('%de%d' % (m, e)) for m in (1, 3, 7, 9, 15, 123) for e in range(-30, 31, 3)]
+    out = []
+    for x in seeds:
+        nxt = frombits(bits(x) + 1)
+        if nxt != nxt or nxt in (float('inf'),):
+            continue
+        a, b = Decimal(x), Decimal(nxt)
+        mid = (a + b) / 2
+        for v in (mid, a, b):
+            s = format(v, 'f') if abs(v) >= Decimal('1e-30') else format(v, 'e')
+            s = s.rstrip('0') if '.' in s and 'e' not in s else s
+            if s.endswith('.'):
+                s += '0'
+            out.append(s)
+            if v is mid:
+                out.append(s + '0000000001' if '.' in s and 'e' not in s else s)
+                t = format(v - (b - a) / Decimal(10 ** 12), 'f' if 'e' not in s else 'e')
+                out.append(t)
+                out.append('-' + s)
+                out.append(s.replace('.', '_0.') if s[0] != '.' and '_' not in s and 'e' not in s and s.split('.')[0][-1:].isdigit() else s)
+    return sorted(set(out))
+
+
 def hex_rounding_strings(tier):
     """hexadecimal inputs that are not exactly representable: 13/14/15+ fraction digits around ties, at the normal/subnormal/underflow/overflow
     exponents, long zero runs and digit runs beyond 128 bits: fromhex rounds to nearest-even, underflows to 0 and overflows to an error"""
@@ -294,6 +325,8 @@ def jobs(tier):
     for s in X.prefix_shards(PARSE_SIGMA, n):
         out.append(('parse', PARSE_SIGMA, n, s))
     out.append(('parse', None, None, None, special_strings()))
+    for ch in X.chunks(iter(long_decimal_strings(tier)), 400):
+        out.append(('parse', None, None, None, ch))
     nh = 6 if tier == 'quick' else 8
     for s in X.prefix_shards(HEX_SIGMA, nh):
         out.append(('hexparse', HEX_SIGMA, nh, s))
